@@ -2,6 +2,7 @@
 from checks import kern, law_audits
 from checks import pure_fns
 from checks import api_cov
+from checks import scale_inv
 LEAN_TARGETS = ["QmcProps.C02", "drv_c02", "drv_c17"]
 BINS = ["c02", "kern", "c17"]
 
@@ -26,6 +27,7 @@ RULE = ("tables: random sequences of make_*interaction (1-4 variables; 3-/4-vari
         "the stored table read from the serde snapshot after every operation; isingham: the sampler's own matrix elements on all patterns; "
         "pairs: two Ising samplers in a TemperingContainer (same edges and signs, different |J|, Gamma, |h|, heat-bath toggled on either) and two generic samplers with equal interaction lists: "
         "set_enable_heatbath / steps / swap_manager_and_state in both call directions / tempering_step with a scripted container RNG (accepted swaps) interleaved, each sampler's table compared after every call with the table of its OWN Hamiltonian; "
+        "generic samplers: the reference Hamiltonian is what was REGISTERED (matrices handed to make_interaction / make_diagonal_interaction; index = outputs++inputs, first variable most significant), and Interaction::at must return the registered entry on every pattern; 3- and 4-variable terms with variables in random order: maximum at a controlled sub-state, or pairwise distinct diagonal entries (i+1)/8 in random order with zeros (not reversal symmetric), via the diagonal constructor or as full 64-/256-entry matrices; sampler bisection prefers many-body bonds (non-palindromic sub-states counted); "
         "sweeps: (1/8 of the Ising samplers carry the operator string of such a partner after an odd number of swaps) exact trajectory of single_diagonal_step / diagonal_update on warmed-up samplers, heat-bath on (3/4) and off, replayed by the model; "
         "(a third of the Ising strings are re-installed through FastOps::new_from_ops from their sparse (p, op) list before the step; get_n() must equal the scanned count after install and after every sweep); "
         "Ising samplers include frustrated antiferromagnets (triangle / square with diagonals) with RVB updates; explicit single_rvb_sweep / single_cluster_step calls precede the examined step; after every call every stored op must satisfy is_diagonal() == (inputs == outputs); a third of the examined Ising steps are drains (beta = 1e-12) after which no operator with inputs == outputs may remain; "
@@ -55,4 +57,5 @@ def main(ck):
                           "Lean carries the per-slot ratio / detailed balance for every weight table and the table-validity invariant")
     law_audits.run(ck, groups=['refine', 'ideal', 'heatbath', 'good'])   # idealised law of the executable model = the Markov kernel of the invariance theorems
     api_cov.run(ck, "c08")   # otherwise unexercised public API, model-free oracles of this property
+    scale_inv.run(ck, "c02")   # power-of-two unit change: identical trajectory, energies exactly scaled (model-free twin oracle)
     return ck.finish(RULE)
